@@ -211,8 +211,8 @@ impl<T: RealNumber + ScalarOperand + AddAssign + SubAssign + MulAssign + DivAssi
     }
 
     fn to_row_vector(self) -> Self::RowVector {
-        let vec_size = self.nrows() * self.ncols();
-        self.into_shape(vec_size).unwrap()
+        // iterate in logical (row-major) order: into_shape would follow the memory layout
+        self.iter().copied().collect()
     }
 
     fn get(&self, row: usize, col: usize) -> T {
@@ -414,7 +414,8 @@ impl<T: RealNumber + ScalarOperand + AddAssign + SubAssign + MulAssign + DivAssi
     }
 
     fn reshape(&self, nrows: usize, ncols: usize) -> Self {
-        self.clone().into_shape((nrows, ncols)).unwrap()
+        // collect in logical (row-major) order: into_shape would follow the memory layout
+        Array::from_shape_vec((nrows, ncols), self.iter().copied().collect()).unwrap()
     }
 
     fn copy_from(&mut self, other: &Self) {
